@@ -83,6 +83,12 @@ where
     if de.form() != want {
         return Err(format!("{name}: JSON deserialisation of {s:?} gives {:?}", de.form()));
     }
+    // the same JSON string written with \\uXXXX escapes for every character (and inside whitespace)
+    let esc: String = s.encode_utf16().map(|u| format!("\\u{u:04x}")).collect();
+    let de3: T = serde_json::from_str(&format!(" \"{esc}\"\n")).map_err(|e| format!("{name}: deserialising the escaped spelling of {s:?} failed: {e}"))?;
+    if de3.form() != want {
+        return Err(format!("{name}: JSON deserialisation of the escaped spelling of {s:?} gives {:?}", de3.form()));
+    }
     let de2: T = serde_json::from_value(serde_json::Value::String(s.to_owned())).map_err(|e| format!("{name}: from_value failed: {e}"))?;
     if de2.form() != want {
         return Err(format!("{name}: from_value of {s:?} gives {:?}", de2.form()));
